@@ -41,7 +41,7 @@ func (propC20) Rule() string {
 }
 func (propC20) Runs(tier string) int {
 	if tier == "thorough" {
-		return 300000
+		return 1500000
 	}
 	return 30000
 }
